@@ -40,3 +40,26 @@ Theorem upload_order_irrelevant c x p q :
   filter_upload c x [p; q] = filter_upload c x [p] ++ filter_upload c x [q] /\
   filter_upload c x [q; p] = filter_upload c x [q] ++ filter_upload c x [p].
 Proof. split; apply (filter_upload_app c x [_] [_]). Qed.
+
+(* which recorded values enter the sum of counter k of build i: exactly those
+   of files whose five identity fields (Program path in full, Version,
+   GoVersion, GOOS, GOARCH) equal i; a file of any other program - even one
+   with the same base name, version and platform - contributes nothing *)
+Theorem spec_entries_in files i k v :
+  In v (spec_entries files i k) <-> exists f, In f files /\ f_ident f = i /\ In (k, v) (f_counts f).
+Proof.
+  unfold spec_entries. rewrite in_flat_map. split.
+  - intros [f [Hf Hin]]. destruct (ident_eqb (f_ident f) i) eqn:E; [|destruct Hin].
+    apply ident_eqb_eq in E. apply in_flat_map in Hin as [[k' v'] [Hk Hin]]. cbn [fst snd] in Hin.
+    destruct (beq k' k) eqn:Ek; [|destruct Hin]. apply beq_eq in Ek. destruct Hin as [<-|[]]. subst k'.
+    exists f. auto.
+  - intros [f [Hf [Hi Hk]]]. exists f. split; [exact Hf|]. rewrite (proj2 (ident_eqb_eq _ _) Hi).
+    apply in_flat_map. exists (k, v). split; [exact Hk|]. cbn [fst snd]. rewrite beq_refl. left. reflexivity.
+Qed.
+
+Theorem other_program_contributes_nothing files g i k :
+  f_ident g <> i -> spec_entries (g :: files) i k = spec_entries files i k.
+Proof.
+  intro Hne. rewrite spec_entries_cons. destruct (ident_eqb (f_ident g) i) eqn:E; [|reflexivity].
+  apply ident_eqb_eq in E. contradiction.
+Qed.
